@@ -37,10 +37,49 @@ func genRecBer(o genOpts, w *bufio.Writer) {
 	genChf(o, bw)
 	bw.Flush()
 	for _, l := range strings.Split(buf.String(), "\n") {
-		if strings.HasPrefix(l, "chf ") {
+		if strings.HasPrefix(l, "chf ") && l != "chf end" {
 			fmt.Fprintf(w, "recber %s\n", l[4:])
 		}
 	}
+	// long offline sessions in the chf stream's own operation format, so that the whole charging model (with the
+	// BER size guard plugged in) is compared with the code across record splits: usage of nc containers per update,
+	// sized to land below, at and above the 65535-octet limit, then small updates and a release that adds usage
+	r := &rng{s: o.seed ^ 0x5eed}
+	lsn := 1000000
+	usage := func(rg, nc, upflen int) string {
+		var sb strings.Builder
+		fmt.Fprintf(&sb, "%d ~ %s %d", rg, hexOf([]byte(strings.Repeat("u", upflen))), nc)
+		for j := 0; j < nc; j++ {
+			lsn++
+			k := uint64(lsn) * 2654435761
+			fmt.Fprintf(&sb, " 2 %d %d %d %d %d", k%2147483647, k%65521, k%251, k%16777213, lsn)
+		}
+		return sb.String()
+	}
+	fills := []int{2500, 2590, 2596, 2600, 2610}
+	if o.tier == "thorough" {
+		fills = append(fills, 2300, 2580, 2594, 2595, 2597, 2598, 2599, 2601, 2602, 2605, 2620, 2700, 3000)
+	}
+	for k, fill := range fills {
+		supi := fmt.Sprintf("imsi-20893%04d%06d", o.seed%10000, 900000+k)
+		nf := r.pickStr("smf", "smf1", "")
+		sid := supi + nf + "-0"
+		fmt.Fprintf(w, "recber reset\n")
+		fmt.Fprintf(w, "recber create %s\n", fmtReq(supi, nf, 7, 0, 0, 0, nil, nil))
+		seq := 1
+		upd := func(op string, us ...string) {
+			fmt.Fprintf(w, "recber %s %s %s\n", op, hexOf([]byte(sid)), fmtReq(supi, nf, 7, seq, 0, 0, nil, us))
+			seq++
+		}
+		upd("update", usage(1, 3, 3))
+		upd("update", usage(1, fill, 5))
+		upd("update", usage(2, 20+r.intn(40), 5))
+		upd("update", usage(1, 10, 0), usage(2, 10, 0))
+		upd("update", usage(1, fill/2, 5))
+		upd("update", usage(1, fill/2+r.intn(80), 5))
+		upd("release", usage(1, 30+r.intn(100), 5))
+	}
+	fmt.Fprintf(w, "recber end\n")
 }
 
 func recOctets(r *cdrType.CHFRecord) string {
